@@ -170,6 +170,7 @@ impl Sim {
     pub fn sig_id(&self, bytes: &[u8]) -> String {
         match self.sigs.iter().position(|s| s == bytes) { Some(i) => i.to_string(), None => "?".into() }
     }
+    pub fn holds(&self, doc_type: &str) -> bool { self.doc_ids.contains_key(doc_type) }
     pub fn doc_id(&self, doc_type: &str) -> String {
         match self.doc_ids.get(doc_type) { Some(i) => i.to_string(), None => "?".into() }
     }
